@@ -1,12 +1,22 @@
 #!/bin/bash
 # Regenerates every evidence file with the thorough tier on /repo's current tree, rebuilds
 # DESIGN.md section A from the records, validates MANIFEST/evidence against the schemas.
-# Run from /verif; takes about an hour with four parallel jobs. Nothing here is registered in MANIFEST.json.
+# Run from /verif; takes about an hour with eight parallel jobs. Nothing here is registered in MANIFEST.json.
 cd /verif || exit 1
 python3 gen_manifest.py || exit 1
 rc=0
 : > /tmp/finalize.log
-ids=$(python3 -c "import json;print(' '.join(c['property_id'] for c in json.load(open('MANIFEST.json'))['checks']))")
+# longest first (number of registered changes), so that the last jobs to start are short ones
+ids=$(python3 - <<'PY'
+import json,glob,collections
+cnt=collections.Counter()
+for f in glob.glob('seeded/*/meta.json'):
+    db=json.load(open(f)).get('detected_by') or {}
+    for p in db: cnt[p]+=1
+ids=[c['property_id'] for c in json.load(open('MANIFEST.json'))['checks']]
+print(' '.join(sorted(ids,key=lambda i:-cnt[i])))
+PY
+)
 ./check.sh C01 quick > /dev/null 2>&1   # builds bin/tmsa once, before the parallel runs
 one() {
   id=$1
@@ -15,8 +25,8 @@ one() {
   return $r
 }
 export -f one
-# four properties at a time (each run applies its registered changes to scratch copies one by one)
-printf '%s\n' $ids | xargs -P ${FINALIZE_JOBS:-4} -I{} bash -c 'one {}' || rc=1
+# eight properties at a time (each run applies its registered changes to scratch copies one by one)
+printf '%s\n' $ids | xargs -P ${FINALIZE_JOBS:-8} -I{} bash -c 'one {}' || rc=1
 sort -o /tmp/finalize.log /tmp/finalize.log; cat /tmp/finalize.log
 grep -qv "rc=0" /tmp/finalize.log && rc=1
 python3 tools/splice_design.py
